@@ -49,9 +49,13 @@ def int_to_sstr(x, max_digits=12):
             break
     if nd is None:
         raise Escape("int too large for symbolic rendering")
-    digs = [z3.simplify(((a / (10 ** (nd - 1 - j))) % 10) + 48) for j in range(nd)]
-    digs = [d.as_long() if z3.is_int_value(d) else d for d in digs]
-    return SStr.mk(([45] if neg else []) + digs)
+    # fresh digit variables tied to the value by a linear constraint (no div/mod terms)
+    ex = cur()
+    ds = [ex.fresh("dig") for _ in range(nd)]
+    for j, d in enumerate(ds):
+        ex.add(d >= (1 if (j == 0 and nd > 1) else 0), d <= 9)
+    ex.add(a == z3.Sum([d * 10 ** (nd - 1 - j) for j, d in enumerate(ds)]))
+    return SStr.mk(([45] if neg else []) + [d + 48 for d in ds])
 
 
 def sx_str(*a, **k):
@@ -198,12 +202,80 @@ def sx_len(x):
     return len(x)
 
 
-RUNTIME = dict(__sx_join__=sx_join, __sx_isinstance__=sx_isinstance, __sx_str__=sx_str, __sx_int__=sx_int,
+class SDict:
+    """insertion-ordered mapping whose keys may be symbolic strings (lookups fork on key equality)"""
+
+    def __init__(self, items=()):
+        self._items = []
+        for k, v in (items.items() if hasattr(items, "items") else items):
+            self[k] = v
+
+    def _find(self, k):
+        for i, (ek, _) in enumerate(self._items):
+            if type(ek) is type(k) or isinstance(ek, (str, SStr)) and isinstance(k, (str, SStr)):
+                if bool(ek == k):
+                    return i
+        return -1
+
+    def __setitem__(self, k, v):
+        i = self._find(k)
+        if i >= 0:
+            self._items[i] = (self._items[i][0], v)
+        else:
+            self._items.append((k, v))
+
+    def __getitem__(self, k):
+        i = self._find(k)
+        if i < 0:
+            raise KeyError(k)
+        return self._items[i][1]
+
+    def __delitem__(self, k):
+        i = self._find(k)
+        if i < 0:
+            raise KeyError(k)
+        del self._items[i]
+
+    def __contains__(self, k):
+        return self._find(k) >= 0
+
+    def get(self, k, default=None):
+        i = self._find(k)
+        return default if i < 0 else self._items[i][1]
+
+    def __len__(self):
+        return len(self._items)
+
+    def __iter__(self):
+        return iter([k for k, _ in self._items])
+
+    def keys(self):
+        return [k for k, _ in self._items]
+
+    def values(self):
+        return [v for _, v in self._items]
+
+    def items(self):
+        return list(self._items)
+
+    def __repr__(self):
+        return "SDict(%r)" % (self._items,)
+
+
+RUNTIME = dict(__sx_dict__=SDict, __sx_join__=sx_join, __sx_isinstance__=sx_isinstance, __sx_str__=sx_str, __sx_int__=sx_int,
                __sx_in__=sx_in, __sx_fstr__=sx_fstr, __sx_format__=sx_format)
 
 
 # --------------------------------------------------------------------------- transform
 class Rewrite(ast.NodeTransformer):
+    sdict = False
+
+    def visit_Dict(self, node):
+        self.generic_visit(node)
+        if self.sdict and not node.keys:
+            return ast.copy_location(ast.Call(ast.Name("__sx_dict__", ast.Load()), [], []), node)
+        return node
+
     def visit_Call(self, node):
         self.generic_visit(node)
         f = node.func
@@ -249,17 +321,28 @@ def source_path(modname):
     return spec.origin
 
 
-def load(modname, inject=None, alias=None):
+def load(modname, inject=None, alias=None, sdict=False):
     """Return a fresh module object holding the transformed code of `modname`."""
     path = source_path(modname)
     src = open(path).read()
-    tree = Rewrite().visit(ast.parse(src, path))
+    rw = Rewrite()
+    rw.sdict = sdict
+    tree = rw.visit(ast.parse(src, path))
+    # names given in `inject` win over what the module imports: re-apply them after every import
+    body = []
+    for st in tree.body:
+        body.append(st)
+        if isinstance(st, (ast.Import, ast.ImportFrom)):
+            body.append(ast.Expr(ast.Call(ast.Name("__sx_reinject__", ast.Load()), [], [])))
+    tree.body = body
     ast.fix_missing_locations(tree)
     code = compile(tree, path, "exec")
     mod = types.ModuleType(alias or (modname + "__sx"))
     mod.__file__ = path
     mod.__package__ = modname.rpartition(".")[0]
     mod.__dict__.update(RUNTIME)
+    inj = dict(inject or {})
+    mod.__dict__["__sx_reinject__"] = lambda: mod.__dict__.update(inj)
     if inject:
         mod.__dict__.update(inject)
     exec(code, mod.__dict__)
@@ -273,3 +356,115 @@ def transform_function_source(src):
     tree = Rewrite().visit(ast.parse(src))
     ast.fix_missing_locations(tree)
     return tree
+
+
+import io as _io
+
+
+class SFile(_io.TextIOBase):
+    """text file object that accepts and returns symbolic strings"""
+
+    def __init__(self, text=""):
+        self.parts = [text] if len(text) else []
+
+    def write(self, s):
+        self.parts.append(s)
+        return len(s)
+
+    def getvalue(self):
+        return sjoin("", self.parts)
+
+    def read(self, *a):
+        return self.getvalue()
+
+    def __iter__(self):
+        v = self.getvalue()
+        return iter(v.splitlines(True))
+
+    def readable(self):
+        return True
+
+    def writable(self):
+        return True
+
+
+# ------------------------------------------------------------ models of urllib.parse.quote / unquote
+_ALWAYS_SAFE = frozenset(b"ABCDEFGHIJKLMNOPQRSTUVWXYZabcdefghijklmnopqrstuvwxyz0123456789_.-~")
+
+
+def _hexdigit(d):
+    if isinstance(d, int):
+        return ord("0123456789ABCDEF"[d])
+    return z3.If(d < 10, d + 48, d + 55)
+
+
+def sx_quote(s, safe="/"):
+    """urllib.parse.quote for ASCII input (symbolic characters fork on 'is safe')"""
+    if isinstance(s, str):
+        from urllib.parse import quote
+        return quote(s, safe=safe)
+    safeset = sorted(_ALWAYS_SAFE | {ord(c) for c in safe if ord(c) < 128})
+    out = []
+    for c in s.cs:
+        if isinstance(c, int):
+            if c in safeset:
+                out.append(c)
+            else:
+                out += [37, _hexdigit(c // 16), _hexdigit(c % 16)]
+        elif _b(z3.Or(*[c == k for k in safeset])):
+            out.append(c)
+        else:
+            ex = cur()
+            hi, lo = ex.fresh("hi"), ex.fresh("lo")
+            ex.add(hi >= 0, hi <= 7, lo >= 0, lo <= 15, c == hi * 16 + lo)
+            out += [37, _hexdigit(hi), _hexdigit(lo)]
+    return SStr.mk(out)
+
+
+def _hexval(c):
+    """(is_hex condition, value term) of a character"""
+    if isinstance(c, int):
+        ch = chr(c)
+        if ch in "0123456789abcdefABCDEF":
+            return True, int(ch, 16)
+        return False, 0
+    isd = z3.And(c >= 48, c <= 57)
+    isu = z3.And(c >= 65, c <= 70)
+    isl = z3.And(c >= 97, c <= 102)
+    return z3.Or(isd, isu, isl), z3.If(isd, c - 48, z3.If(isu, c - 55, c - 87))
+
+
+def sx_unquote(s):
+    """urllib.parse.unquote for ASCII results ('%XX' with XX >= 0x80 is outside the model)"""
+    if isinstance(s, str):
+        from urllib.parse import unquote
+        return unquote(s)
+    cs = s.cs
+    out = []
+    i = 0
+    while i < len(cs):
+        c = cs[i]
+        is_pct = (c == 37) if isinstance(c, int) else _b(c == 37)
+        if is_pct and i + 2 < len(cs):
+            h1, v1 = _hexval(cs[i + 1])
+            h2, v2 = _hexval(cs[i + 2])
+            both = z3.And(tobool_(h1), tobool_(h2))
+            if _b(z3.simplify(both)) if not (h1 is True and h2 is True) else True:
+                val = v1 * 16 + v2
+                if isinstance(val, int):
+                    if val >= 128:
+                        raise Escape("non-ASCII percent escape")
+                    out.append(val)
+                else:
+                    if _b(val >= 128):
+                        raise Escape("non-ASCII percent escape")
+                    out.append(z3.simplify(val))
+                i += 3
+                continue
+        out.append(c)
+        i += 1
+    return SStr.mk([o.as_long() if (not isinstance(o, int) and z3.is_int_value(o)) else o for o in out])
+
+
+def tobool_(x):
+    return z3.BoolVal(x) if isinstance(x, bool) else x
